@@ -205,3 +205,67 @@ func VH_C12_exchange(n int) {
 	vKnown("C12-K1-raw-msgpack-cookie", true)
 	vAssert(safe, "cookie-value-wire-safe")
 }
+
+func vLetters(name string, lo, hi int) string {
+	s := vString(name, vLen(name+"len", lo, hi))
+	for i := 0; i < len(s); i++ {
+		vAssume(vAnd(s[i] >= 'a', s[i] <= 'z'))
+	}
+	return s
+}
+
+// VH_C12_mixed: flash messages and old input in one redirect; a message key may equal a submitted
+// field name. case 0: WithInput() then With(); case 1: With() then WithInput().
+// (letters only: the raw-msgpack cookie finding K1 is about other bytes)
+func VH_C12_mixed(caseID int) {
+	app := vNewApp(vCfgs[0])
+	field := vLetters("field", 1, 1)
+	fval := vLetters("fval", 0, 2)
+	mkey := vLetters("mkey", 1, 1)
+	mval := vLetters("mval", 0, 2)
+	app.Get("/issue", func(c Ctx) error {
+		r := c.Redirect()
+		if caseID == 0 {
+			r.WithInput().With(mkey, mval, 2)
+		} else {
+			r.With(mkey, mval, 2).WithInput()
+		}
+		return r.To("/show")
+	})
+	var msgs []FlashMessage
+	var olds []OldInputData
+	app.Get("/show", func(c Ctx) error {
+		msgs = c.Redirect().Messages()
+		olds = c.Redirect().OldInputs()
+		return nil
+	})
+	app.startupProcess()
+	f1 := vDo(app, "GET", "/issue?"+field+"="+fval)
+	vAssert(f1.Response.StatusCode() == StatusFound, "redirect-status")
+	var ck fasthttp.Cookie
+	ck.SetKey(FlashCookieName)
+	vAssert(f1.Response.Header.Cookie(&ck), "cookie-issued")
+	val := append([]byte(nil), ck.Value()...)
+
+	fctx := &fasthttp.RequestCtx{}
+	fctx.Request.Header.SetMethod("GET")
+	fctx.Request.SetRequestURI("/show")
+	fctx.Request.Header.SetCookieBytesKV([]byte(FlashCookieName), val)
+	c, _ := app.AcquireCtx(fctx).(*DefaultCtx)
+	c.Redirect().parseAndClearFlashMessages()
+	_, _ = app.next(c)
+	app.ReleaseCtx(c)
+
+	vAssert(len(msgs) == 1, "one-message")
+	if len(msgs) == 1 {
+		vAssert(msgs[0].Key == mkey, "message-key")
+		vAssert(msgs[0].Value == mval, "message-value")
+		vAssert(msgs[0].Level == 2, "message-level")
+	}
+	vAssert(len(olds) == 1, "one-old-input")
+	if len(olds) == 1 {
+		vAssert(olds[0].Key == field, "old-input-key")
+		vAssert(olds[0].Value == fval, "old-input-value")
+	}
+	vReach("mixed")
+}
